@@ -107,11 +107,11 @@ CoarsenCandidate(c, V) ==
           ELSE Curve(V, [i \in 1..Len(w) |-> Div(a[i], w[i])], w)
 
 (* exact representability of the homogeneous form on V *)
-HomogSame(c1, c2) ==
-  IF c1.W = <<>> THEN c2.W = <<>> /\ SameFunction(c1, c2)
+HomogSame(c1, c2) ==                  \* strict: "unknown" (overflow) is not "same"
+  IF c1.W = <<>> THEN c2.W = <<>> /\ SameFunctionStrict(c1, c2)
   ELSE /\ c2.W # <<>>
-       /\ SameFunction(Poly(c1.U, c1.W), Poly(c2.U, c2.W))
-       /\ SameFunction(Poly(c1.U, Homog(c1)), Poly(c2.U, Homog(c2)))
+       /\ SameFunctionStrict(Poly(c1.U, c1.W), Poly(c2.U, c2.W))
+       /\ SameFunctionStrict(Poly(c1.U, Homog(c1)), Poly(c2.U, Homog(c2)))
 
 Representable(c, V) ==
   /\ Limits(c.U) = Limits(V)
